@@ -294,6 +294,49 @@ fn invert_magnitudes<T: Tier>(rep: &mut Report) {
     );
 }
 
+/// float tiers: quaternions that are *almost* real, almost one(), almost zero or almost equal to the other operand - the
+/// shapes a fast path would test for, and the approximate `is_zero` / `ulps_eq` the library offers for testing them
+fn nearly_special<T: Tier + Dom<M = Sh>>(rep: &mut Report) {
+    let ds = [0.0, T::U / 64.0, 2f64.powi(-30), 2f64.powi(-22)];
+    rep.cases(
+        "nearly-special",
+        T::NAME,
+        "q nearly {one, real (2.5), zero, equal to p, pure (w ~ 0)} x {exactly, below the scalar epsilon, by 2^-30, by 2^-22} against a generic p: p*q, q*p, q*q, p+q, p-q, q*v, invert(q), conjugate, magnitude2, dot",
+        5 * ds.len(),
+        Guard::states(20).distinct(20),
+        |i, ctx| {
+            let (shape, d) = (i / ds.len(), ds[i % ds.len()]);
+            let c = |x: f64| num_traits::cast::<f64, T>(x).unwrap();
+            let p: Q4<T> = vec_from_r(&alphabet::generic(4, 1));
+            let h: Q4<T> = vec_from_r(&alphabet::generic(4, 2));
+            let off: Q4<T> = std::array::from_fn(|j| c(d * h[j].f() / 8.0));
+            let q: Q4<T> = match shape {
+                0 => [T::one() + off[0], off[1], off[2], off[3]],
+                1 => [c(2.5), off[1], off[2], off[3]],
+                2 => off,
+                3 => std::array::from_fn(|j| c(p[j].f() * (1.0 + d * (j + 1) as f64))),
+                _ => [off[0], h[1], h[2], h[3]],
+            };
+            ctx.describe(|| format!("shape {} variant {}: p={:?} q={:?} (w,x,y,z)", ["one", "real", "zero", "equal", "pure"][shape], i % ds.len(), p, q));
+            ctx.out(&i);
+            let (cp, cq, mp, mq) = (mk_q(p), mk_q(q), lq::<T>(p), lq::<T>(q));
+            eq_v::<T, 4>(ctx, &key("nearly-special/p*q"), qa(cp * cq), model::qmul(mp, mq));
+            eq_v::<T, 4>(ctx, &key("nearly-special/q*p"), qa(cq * cp), model::qmul(mq, mp));
+            eq_v::<T, 4>(ctx, &key("nearly-special/q*q"), qa(cq * cq), model::qmul(mq, mq));
+            eq_v::<T, 4>(ctx, &key("nearly-special/p+q"), qa(cp + cq), model::vadd(mp, mq));
+            eq_v::<T, 4>(ctx, &key("nearly-special/p-q"), qa(cp - cq), model::vsub(mp, mq));
+            eq_v::<T, 4>(ctx, &key("nearly-special/conjugate"), qa(cq.conjugate()), model::qconj(mq));
+            eq_s::<T>(ctx, &key("nearly-special/magnitude2"), cq.magnitude2(), model::qnorm2(mq));
+            eq_s::<T>(ctx, &key("nearly-special/dot"), cp.dot(cq), model::vdot(mp, mq));
+            let v: [T; 3] = vec_from_r(&alphabet::generic(3, 1));
+            eq_v::<T, 3>(ctx, &key("nearly-special/q*v"), v3(cq * mk_v3(v)), formula(mq, lift_v(v)));
+            // (zero, exactly or nearly: |q|^2 underflows or is far below the inputs' rounding - 8.5)
+            if shape != 2 {
+                eq_v::<T, 4>(ctx, &key("nearly-special/invert"), qa(Rotation::invert(&cq)), model::qinv(mq));
+            }
+        },
+    );
+}
 fn all<T: Tier>(rep: &mut Report) {
     algebra::<T>(rep);
     action::<T>(rep);
@@ -307,5 +350,7 @@ fn main() {
     all::<Ex>(&mut rep);
     all::<f64>(&mut rep);
     all::<f32>(&mut rep);
+    nearly_special::<f64>(&mut rep);
+    nearly_special::<f32>(&mut rep);
     std::process::exit(rep.finish());
 }
